@@ -113,7 +113,27 @@ func fUIDOf(argv []string) string {
 	return ""
 }
 
-func fRunPlan(t *testing.T, plan fPlan) (run fRun) {
+func fRunPlan(t *testing.T, plan fPlan) fRun { return fRunPlanMode(t, plan, false) }
+
+// fRunPlanReal runs the plan outside the bubble, in real time. It is the second opinion on a frozen bubble: a
+// goroutine that spins or sits on a sync.Mutex stops the virtual clock, which may be an artefact of virtual time
+// (the others would release it once time passes) or a genuine livelock of the client; in real time the artefact
+// dissolves and the livelock stays. Calls still pending after 60 s of real time (plans last a few seconds) are a hang.
+func fRunPlanReal(t *testing.T, plan fPlan) fRun { return fRunPlanMode(t, plan, true) }
+
+func fRunPlanMode(t *testing.T, plan fPlan, real bool) (run fRun) {
+	long := func(d time.Duration) time.Duration {
+		if real {
+			return min(d, 60*time.Second)
+		}
+		return d
+	}
+	short := func(d time.Duration) time.Duration {
+		if real {
+			return min(d, 200*time.Millisecond)
+		}
+		return d
+	}
 	var mu sync.Mutex
 	for ci, ops := range plan.Callers {
 		for oi := range ops {
@@ -137,7 +157,7 @@ func fRunPlan(t *testing.T, plan fPlan) (run fRun) {
 	}
 	run.CloseAtUs = -1
 	ring := queueLabel() == "ring"
-	run.Res = bubble.Run(t, func() {
+	body := func() {
 		w := fakeredis.NewWorld()
 		srv := w.NewServer("127.0.0.1:6379")
 		arrivals := map[string]int{}
@@ -172,6 +192,8 @@ func fRunPlan(t *testing.T, plan fPlan) (run fRun) {
 					mu.Unlock()
 					for _, f := range plan.IntFaults {
 						if (f.Cmd == name && f.Nth == n) || (after != "" && f.Cmd == after && f.Nth == nAfter) {
+							// let what the server has already answered (e.g. the unsubscribe confirmation) reach the client first
+							time.Sleep(20 * time.Microsecond)
 							switch f.Kind {
 							case "drop-before":
 								return fakeredis.Fault{Kind: fakeredis.DropBeforeExec}
@@ -319,6 +341,9 @@ func fRunPlan(t *testing.T, plan fPlan) (run fRun) {
 						r.Results = []rueidis.RedisResult{client.DoCache(ctx, client.B().Get().Key(op.Key).Cache(), time.Minute)}
 					case "receive":
 						r.Err = client.Receive(ctx, client.B().Subscribe().Channel("ch").Build(), func(rueidis.PubSubMessage) {})
+					case "unsub":
+						// answered by a push (the confirmation) and the reply of the PING the client sends behind it
+						r.Results = []rueidis.RedisResult{client.Do(ctx, client.B().Unsubscribe().Channel("ch").Build())}
 					}
 					mu.Lock()
 					r.EndUs = clock.Us()
@@ -344,7 +369,7 @@ func fRunPlan(t *testing.T, plan fPlan) (run fRun) {
 					mu.Lock()
 					run.CloseAtUs = clock.Us()
 					mu.Unlock()
-					ok := sim.CallTimeout(time.Minute, client.Close)
+					ok := sim.CallTimeout(long(time.Minute), client.Close)
 					mu.Lock()
 					run.CloseOK = ok
 					run.CloseEndUs = clock.Us()
@@ -353,7 +378,7 @@ func fRunPlan(t *testing.T, plan fPlan) (run fRun) {
 				}
 			})
 		}
-		finished := sim.WaitTimeout(&wg, 5*time.Minute)
+		finished := sim.WaitTimeout(&wg, long(5*time.Minute))
 		mu.Lock()
 		if !finished {
 			for _, r := range run.Results {
@@ -366,10 +391,10 @@ func fRunPlan(t *testing.T, plan fPlan) (run fRun) {
 		closeCalled := run.CloseAtUs >= 0
 		mu.Unlock()
 		if !closeCalled {
-			run.CloseOK = sim.CallTimeout(time.Minute, client.Close)
+			run.CloseOK = sim.CallTimeout(long(time.Minute), client.Close)
 		} else {
 			// Close may still be running: give it its minute
-			time.Sleep(61 * time.Second)
+			time.Sleep(short(61 * time.Second))
 		}
 		w.Stop()
 		run.Events = w.Snapshot()
@@ -378,11 +403,26 @@ func fRunPlan(t *testing.T, plan fPlan) (run fRun) {
 			run.Dials += n
 		}
 		if !finished {
-			sim.WaitTimeout(&wg, time.Minute)
+			sim.WaitTimeout(&wg, short(time.Minute))
 		}
-		time.Sleep(5 * time.Second)
-	})
-	return
+		time.Sleep(short(5 * time.Second))
+	}
+	if !real {
+		run.Res = bubble.Run(t, body)
+		return
+	}
+	done := make(chan struct{})
+	go func() { body(); close(done) }()
+	select {
+	case <-done:
+	case <-time.After(4 * time.Minute):
+		run.Res.Frozen = true
+	}
+	mu.Lock()
+	defer mu.Unlock()
+	cp := run
+	cp.Results = append([]*fResult(nil), run.Results...)
+	return cp
 }
 
 // ---- observed attempts of each command, from the server's event log
